@@ -53,6 +53,8 @@ const natRouterIP = "1.2.3.4"
 var natEndpoints = map[string]string{
 	"A1": "10.0.0.1:5001", "A2": "10.0.0.1:5002", "B1": "10.0.0.2:5001",
 	"X1": "5.5.5.5:80", "X2": "5.5.5.5:81", "Y1": "6.6.6.6:80", "Z9": "7.7.7.7:99",
+	// endpoints whose concatenated texts collide: "10.0.0.1:50"+"15.5.5.5" == "10.0.0.1:501"+"5.5.5.5"
+	"C1": "10.0.0.1:50", "C2": "10.0.0.1:501", "Z1": "15.5.5.5:80",
 	// never contacted, but textually an extension of a contacted remote (keys are compared as strings)
 	"XP": "5.5.5.5:800", "XQ": "5.5.5.50:80",
 	// 1:1 mode
@@ -78,9 +80,10 @@ type natMapping struct {
 }
 
 type natSys struct {
-	historyKey bool     // identify states by their history instead of a dump (deep starts)
-	hist       []string // every operation so far (only kept with historyKey)
-	nops       int      // operations so far (selects the IP representation of the next chunk)
+	historyKey bool          // identify states by their history instead of a dump (deep starts)
+	hist       []string      // every operation so far (only kept with historyKey)
+	nops       int           // operations so far (selects the IP representation of the next chunk)
+	lastOpAt   time.Duration // when the previous datagram was handled: the next chunk carries that instant as its queue timestamp
 	mode       string
 	cfg        natCfg
 	z          *vnet.ZZNAT
@@ -199,8 +202,10 @@ func (s *natSys) Apply(op string) (obs, sig, msg string) {
 		// equal addresses arrive in both slice representations: alternately 4-byte and 16-byte
 		s.nops++
 		vnet.ZZIPForm = 4 + 12*(s.nops%2)
+		vnet.ZZStamp = zzvsched.Base.Add(s.lastOpAt) // the chunk entered a router queue when the previous operation ended
 		nsrc, ndst, data, ok, err := s.z.Outbound(src, dst, payload)
-		vnet.ZZIPForm = 0
+		vnet.ZZIPForm, vnet.ZZStamp = 0, time.Time{}
+		s.lastOpAt = zzvsched.Elapsed()
 		if s.cfg.oneToOne > 0 {
 			return s.outbound1to1(src, dst, nsrc, ndst, data, keep, ok, err)
 		}
@@ -308,8 +313,10 @@ func (s *natSys) Apply(op string) (obs, sig, msg string) {
 		}
 		s.nops++
 		vnet.ZZIPForm = 4 + 12*(s.nops%2)
+		vnet.ZZStamp = zzvsched.Base.Add(s.lastOpAt)
 		nsrc, ndst, data, err := s.z.Inbound(src, dst, payload)
-		vnet.ZZIPForm = 0
+		vnet.ZZIPForm, vnet.ZZStamp = 0, time.Time{}
+		s.lastOpAt = zzvsched.Elapsed()
 		if s.cfg.oneToOne > 0 {
 			return s.inbound1to1(src, dst, nsrc, ndst, data, keep, err)
 		}
@@ -527,6 +534,23 @@ func runNATBody(mode, tier string, shard, shards int, rep *SeqReport, lastOp, cu
 		r := bfs("nat "+cfg.String(), func() seqSystem { return newNatSys(mode, cfg, alpha, lastOp) }, nil, depth, maxStates, rep)
 		rep.family("table-bfs", r.transitions)
 	}
+	// table keys are built from texts: internal endpoints and remotes whose concatenations collide
+	// ("10.0.0.1:50"+"15.5.5.5..." vs "10.0.0.1:501"+"5.5.5.5...") under the mapping behaviours that key on the remote
+	for _, cfg := range []natCfg{{mapping: vnet.EndpointAddrDependent, filtering: vnet.EndpointIndependent}, {mapping: vnet.EndpointAddrPortDependent, filtering: vnet.EndpointAddrPortDependent},
+		{mapping: vnet.EndpointIndependent, filtering: vnet.EndpointAddrDependent}} {
+		if !mine() {
+			continue
+		}
+		cfg := cfg
+		alpha := []string{"O C1 Z1", "O C2 X1", "O C1 X1", "O C2 Z1", "I Z1 E0", "I X1 E0", "I X1 E1", "I Z1 E1", "T full"}
+		*curFam = "colliding-texts " + cfg.String()
+		d := 4
+		if thorough {
+			d = 5
+		}
+		r := bfs("nat-colliding-texts "+cfg.String(), func() seqSystem { return newNatSys(mode, cfg, alpha, lastOp) }, nil, d, maxStates, rep)
+		rep.family("colliding-key-texts", r.transitions)
+	}
 	// deep starts: the dynamic port range (16384 ports) nearly / exactly / over full, live and expired
 	// (one with mapping == filtering behaviour, one where they differ: the table keys of the two directions then differ)
 	deepCfgs := []natCfg{{mapping: vnet.EndpointIndependent, filtering: vnet.EndpointIndependent, lifetime: 100 * time.Millisecond},
@@ -605,7 +629,7 @@ func init() {
 	assume := []string{"3 internal endpoints (two sharing an IP), 4 remotes (two sharing an IP, one never contacted), lifetimes {30 s, 100 ms}",
 		"time advances only by lifetime/2-1ms and lifetime+1ms steps, so no probe lands within 1 us of an expiry instant (left unconstrained by the property)",
 		"allocation is 'some fresh endpoint': the model adopts the port the implementation chose and checks validity, ownership and uniqueness"}
-	rule := "explicit-state BFS (depth 5 quick / 7 thorough, states merged on a reflective dump of the translator + model) over {outbound i->r, inbound r->e for every external endpoint seen so far and a never-allocated one, advance half / full lifetime} for all 9 mapping x filtering behaviours x 2 lifetimes and 1:1 mode with 1..3 IP pairs, from the empty table, from deep starts with 16382/16383/16384 live (and expired) mappings, and from a full table of mixed age (both end ports old-but-live, the middle re-allocated after expiry); every translation result is compared with an RFC 4787 table model; the IPv4 addresses of successive datagrams alternate between 4-byte and 16-byte representation"
+	rule := "explicit-state BFS (depth 5 quick / 7 thorough, states merged on a reflective dump of the translator + model) over {outbound i->r, inbound r->e for every external endpoint seen so far and a never-allocated one, advance half / full lifetime} for all 9 mapping x filtering behaviours x 2 lifetimes and 1:1 mode with 1..3 IP pairs, from the empty table, from deep starts with 16382/16383/16384 live (and expired) mappings, from a full table of mixed age, and over endpoints whose concatenated address texts collide (both end ports old-but-live, the middle re-allocated after expiry); every translation result is compared with an RFC 4787 table model; the IPv4 addresses of successive datagrams alternate between 4-byte and 16-byte representation, and every chunk carries the instant of the previous datagram as its router-queue timestamp (time steps lie in between)"
 	register(&Check{ID: "C02", Seq: func(t string, k, n int, r *SeqReport) { runNAT("C02", t, k, n, r) }, Rule: rule, Assumptions: assume})
 	register(&Check{ID: "C03", Seq: func(t string, k, n int, r *SeqReport) { runNAT("C03", t, k, n, r) }, Rule: rule, Assumptions: assume})
 }
